@@ -292,6 +292,35 @@ func FamLoop(t Type, emit func(Gen)) {
 	}
 }
 
+// FamNestedLoop: loops inside loops, the inner body using both loop variables, an early return and an array.
+func FamNestedLoop(t Type, emit func(Gen)) {
+	a, b, acc := Var{Name: "a"}, Var{Name: "b"}, Var{Name: "acc"}
+	ci, cj := Cast{T: t, X: Var{Name: "i"}}, Cast{T: t, X: Var{Name: "j"}}
+	at := t
+	at.N = 3
+	inner := [][]Stmt{
+		{Assign{Name: "acc", X: Bin{Op: "+", L: acc, R: Bin{Op: "*", L: Bin{Op: "+", L: a, R: ci}, R: Bin{Op: "^", L: b, R: cj}}}}},
+		{If{Cond: Bin{Op: "<", L: Bin{Op: "+", L: acc, R: cj}, R: b}, Then: []Stmt{Assign{Name: "acc", X: Bin{Op: "+", L: acc, R: a}}}, Else: []Stmt{Assign{Name: "acc", X: Bin{Op: "-", L: acc, R: ci}}}}},
+		{If{Cond: Bin{Op: "==", L: acc, R: b}, Then: []Stmt{Return{X: []Expr{Bin{Op: "+", L: acc, R: ci}}}}}, Assign{Name: "acc", X: Bin{Op: "+", L: Bin{Op: "<<", L: acc, R: Lit{V: 1}}, R: cj}}},
+		{Assign{Name: "arr", Idx: Var{Name: "j"}, X: Bin{Op: "+", L: Index{A: Var{Name: "arr"}, Idx: Var{Name: "j"}}, R: Bin{Op: "+", L: acc, R: ci}}}, Assign{Name: "acc", X: Bin{Op: "^", L: acc, R: Index{A: Var{Name: "arr"}, Idx: Var{Name: "i"}}}}},
+	}
+	for ni := int64(1); ni <= 3; ni++ {
+		for nj := int64(0); nj <= 3; nj++ {
+			for bi, bd := range inner {
+				if bi == 3 && (ni > 3 || nj > 3) {
+					continue
+				}
+				body := []Stmt{Define{Name: "acc", X: a}, VarDecl{Name: "arr", T: at},
+					For{Var: "i", From: 0, To: ni, Body: []Stmt{
+						For{Var: "j", From: 0, To: nj, Body: bd},
+						Assign{Name: "acc", X: Bin{Op: "+", L: acc, R: Bin{Op: "+", L: ci, R: Index{A: Var{Name: "arr"}, Idx: Lit{V: 0}}}}}}},
+					Return{X: []Expr{acc}}}
+				emit(Gen{"loop-nested", &Program{Funcs: []Func{mainFn(ab(t), []Type{t}, body)}}})
+			}
+		}
+	}
+}
+
 // FamArray: arrays with constant, loop-variable and in-range dynamic indices; copies; arrays as arguments.
 func FamArray(t Type, emit func(Gen)) {
 	a, b := Var{Name: "a"}, Var{Name: "b"}
@@ -614,6 +643,7 @@ func Statements(quick bool, emit func(Gen)) {
 	for _, t := range stmtTypes {
 		FamIf(t, emit)
 		FamLoop(t, emit)
+		FamNestedLoop(t, emit)
 		FamArray(t, emit)
 		FamCall(t, emit)
 		FamGlobals(t, emit)
